@@ -84,6 +84,7 @@ def check_C12(ctx, rep):
     # "NAN compares unequal to itself": eq returns false whenever any word is NaN (shared with C06/R12)
     from . import rules_base
     rules_base.nan_screen(rep, f, "R28n", only_eq=True)
+    rules_base.ne_override(rep, f, "R28n", TF, TF)      # `!=` is the provided negation of eq unless overridden; then the override has to be it
     for name, sgn in (("INFINITY", 1.0), ("NEG_INFINITY", -1.0)):
         c = assoc_const(f, name)
         if c is None:
